@@ -302,3 +302,8 @@ package mhprimary
 //@   assert at before call (*bufio.Writer).Write#0: @record-starts-below-limit 0 <= written && written < fileSizeLimit
 //@   assert at before call (*os.File).ReadAt#0: @read-at-cursor $a2 == pos && len($a1) == 4
 //@   loop 0 invariant 0 <= written && written < fileSizeLimit && 0 <= pos && pos <= file.$size + 2147483648 && file.$size < (1 << 62) && file != nil && fresh(file) && outFile != nil && fresh(outFile) && writer != nil && len(sizeBuf) == 4 && fresh(sizeBuf) && (baseof(scratch) == 0 || fresh(scratch))
+
+//@ func createFileAppend(name string) (f *os.File, err error)  property C10
+//@   fresh f
+//@   ensures @created-empty err == nil ==> f != nil && f.$open && f.$size == 0 && f.$name == name
+//@   ensures err != nil ==> f == nil
